@@ -10,6 +10,8 @@ fn err_name(e: &TermError) -> &'static str {
         TermError::NotVar => "NotVar",
         TermError::NotAbs => "NotAbs",
         TermError::NotApp => "NotApp",
+        #[allow(unreachable_patterns)]
+        _ => "Other",
     }
 }
 
